@@ -119,8 +119,7 @@ static void reset(void)
 static int cmp_elem(const void * a, const void * b, void * p)
 {
     h_priv_check(p, 1);
-    return (((const struct elem *)a)->key > ((const struct elem *)b)->key)
-           - (((const struct elem *)a)->key < ((const struct elem *)b)->key);
+    return h_cmp_result(((const struct elem *)a)->key, ((const struct elem *)b)->key);
 }
 
 static long visited[NE + 1];
